@@ -122,6 +122,7 @@ func genMgrElapsed(rt *rapid.T, iv time.Duration) time.Duration {
 }
 
 func TestC02Manager(t *testing.T) {
+	defer vt.Watch("TestC02Manager", 120*time.Second)()
 	rec := vt.For("C02")
 	rec.Rule("manager level: PayPerInterval.OnUpdate on a memory/badger store with node.LastSeen = now-elapsed, elapsed in {0,1ns,interval-1,interval,interval+1,multiples,10y,any<=100y}, price 1..2^130, interval 1ns..1h, 0..6 peers (hosts, non-hosts, peers sharing the client's wallet or each other's), optional single injected fault at the k-th balance write; oracle: independent math/big floor(elapsed*price/interval) per peer, client debited the sum, host/zero/empty no movement, under a fault either every delta or none; non-trivial = light client with elapsed>0 and >=1 peer; distinct by (elapsed class, price bits, #peers, links, fault index)")
 	rec.Assume("all-or-nothing is checked for a single fault injected at a balance-store WRITE of one keep-alive (a failing read-back after the movement is not treated as a failed update)")
